@@ -287,12 +287,41 @@ pub fn one_cycle(h: &mut TestHarness) -> Result<CycleObs, String> {
     })
 }
 
+/// Executed statements of one cycle: (start, end) byte offsets, in execution order.
+pub type StmtLog = Vec<Vec<(u32, u32)>>;
+
 /// Drive the whole trace and judge it. After a fault one further cycle is run to check the
 /// latch (`ResourceFaulted`).
 pub fn run(source: &str, trace: &XTrace) -> RunReport {
+    run_inner(source, trace, None)
+}
+
+/// Like `run`, but with the debug hook attached and ONE logpoint that covers the whole file,
+/// so that every executed statement is logged with its location (non-blocking). Used to find
+/// out whether a mutated site was reached and to try further traces; a failure seen here is
+/// only reported after a hook-free `run` of the same trace confirmed it.
+pub fn run_traced(source: &str, trace: &XTrace, log: &mut StmtLog) -> RunReport {
+    run_inner(source, trace, Some(log))
+}
+
+fn run_inner(source: &str, trace: &XTrace, mut log: Option<&mut StmtLog>) -> RunReport {
     let mut h = match compile(source) {
         Ok(h) => h,
         Err(rep) => return rep,
+    };
+    let dbg = if log.is_some() {
+        let c = h.runtime_mut().enable_debug();
+        let mut bp = trust_runtime::debug::DebugBreakpoint::new(trust_runtime::debug::SourceLocation::new(0, 0, u32::MAX));
+        bp.log_message = Some(vec![trust_runtime::debug::LogFragment::Text("x".into())]);
+        c.set_breakpoints_for_file(0, vec![bp]);
+        Some(c)
+    } else {
+        None
+    };
+    let drain = |log: &mut Option<&mut StmtLog>| {
+        if let (Some(c), Some(l)) = (&dbg, log.as_deref_mut()) {
+            l.push(c.drain_logs().into_iter().filter_map(|d| d.location.map(|loc| (loc.start, loc.end))).collect());
+        }
     };
     let mut rep = RunReport {
         accepted: true,
@@ -322,6 +351,7 @@ pub fn run(source: &str, trace: &XTrace) -> RunReport {
                 return rep;
             }
         };
+        drain(&mut log);
         rep.ran_cycles += 1;
         rep.cycles.push(obs.clone());
         let shown = match &obs.error {
